@@ -49,8 +49,14 @@ def run(rep, work, tier, seed, only=None):
             rep.case(('opt', json.dumps(desc, sort_keys=True), ci), nz,
                      sample=dict(desc, syndrome_z_part=cse['syn_zpart'], x_correction=cse['cx']) if (ci == 5 and len(rep.samples) < 3) else None)
             rep.count('optimality:' + r['cls'])
-            lines.append('Eval vm_compute in opt_ok %d Hxs ox %s (ofl %s) %s && opt_ok %d Hzs oz %s (ofl %s) %s.\n' % (
-                n, bl(cse['syn_zpart']), codegen.nlist(cse['cx']), SLACK, n, bl(cse['syn_xpart']), codegen.nlist(cse['cz']), SLACK))
+            et = cse.get('error_type')
+            px_ = 'opt_ok %d Hxs ox %s (ofl %s) %s' % (n, bl(cse['syn_zpart']), codegen.nlist(cse['cx']), SLACK)
+            pz_ = 'opt_ok %d Hzs oz %s (ofl %s) %s' % (n, bl(cse['syn_xpart']), codegen.nlist(cse['cz']), SLACK)
+            if et == 'X':     # one-sector decoder: its sector optimal, nothing in the other block
+                pz_ = 'N.eqb (ofl %s) 0' % codegen.nlist(cse['cz'])
+            elif et == 'Z':
+                px_ = 'N.eqb (ofl %s) 0' % codegen.nlist(cse['cx'])
+            lines.append('Eval vm_compute in %s && %s.\n' % (px_, pz_))
             sub.append((r, desc, key, cse))
         f = os.path.join(work, 'c09_%03d.v' % si)
         open(f, 'w').write(''.join(lines))
@@ -71,8 +77,14 @@ def run(rep, work, tier, seed, only=None):
             n = r['n']
             what = None
             better = None
+            et = cse.get('error_type')
             for sect, H, odds, syn, corr in (('X', r['H_x_sector'], r['odds_x'], cse['syn_zpart'], cse['cx']),
                                              ('Z', r['H_z_sector'], r['odds_z'], cse['syn_xpart'], cse['cz'])):
+                if et and sect != et:
+                    if corr:
+                        what = "the decoder built with error_type='%s' returned %s components on qubits %s" % (et, sect, corr)
+                        break
+                    continue
                 od = [Fraction(*o_) for o_ in odds]
                 sy = lambda x: [sum(1 for j in h if (x >> j) & 1) % 2 for h in H]
                 cint = sum(1 << q for q in corr)
@@ -92,8 +104,8 @@ def run(rep, work, tier, seed, only=None):
                     what = ('in the %s sector the decoder returned flips on %s (likelihood odds %.6g) but flips on %s have the same syndrome and '
                             'odds %.6g: not a minimum-weight correction' % (sect, corr, float(pc), better, float(best)))
                     break
-            rep.violation(key, 'MatchingDecoder (decoder #%d built from the same code, noise-model object and rate) on %s, error X%s Z%s: %s'
-                          % (cse.get('decoder_built', 1), desc, cse['ex'], cse['ez'], what or 'opt_ok false'),
+            rep.violation(key, 'MatchingDecoder (%sdecoder #%d built from the same code, noise-model object and rate) on %s, error X%s Z%s: %s'
+                          % (("error_type='%s', " % et) if et else '', cse.get('decoder_built', 1), desc, cse['ex'], cse['ez'], what or 'opt_ok false'),
                           {'config': desc, 'decoder_built': cse.get('decoder_built', 1), 'error': {'x': cse['ex'], 'z': cse['ez']},
                            'returned': {'x': cse['cx'], 'z': cse['cz']}, 'better': better},
                           no_input=what is None)
